@@ -81,6 +81,7 @@ def gen_T17():
     out += 'Definition DEL_ROLLS_BACK : bool := %s.\n' % cbool(del_rb)
     out += 'Definition EXIT_ROLLS_BACK : bool := %s.\n' % cbool(exit_rb)
     out += 'Definition ATOMIC_CALL_SITES : list (list N) :=\n  %s.\n' % clist(cstr(x) for x in sites)
+    out += 'Definition FLAT_ADD_NEXT_ID_FIRST : bool := %s.\n' % cbool(flat_add_order())
     out += 'Definition COMMIT_ON_UNWIND_SITES : list (list N) := %s.\n' % clist(cstr(x) for x in unsafe)
     # callers that wrap fd.write(...) in a try whose handler swallows OSError: the flush goes on and commits
     out += 'Definition SWALLOW_WRITE_ERROR_SITES : list (list N) := %s.\n' % clist(cstr(x) for x in swallow)
@@ -203,3 +204,22 @@ def call_sites():
          and any(x.startswith('src/dbi.py:FlatfileMapping.vacuum') for x in sites),
          'an anchored flusher no longer goes through AtomicFile: %r' % sites)
     return sites, sorted(set(unsafe)), sorted(set(swallow)), swallow_lines
+
+
+def flat_add_order():
+    """dbi.FlatfileMapping.add writes in place: the record line at the end and the next-id header at offset 0.  True iff
+    the header (self._incrementCurrentId(fd)) is written BEFORE the record (fd.write(line)) and not from a finally: block."""
+    t = tree('src/dbi.py')
+    add = find_def(t, 'add', 'FlatfileMapping')
+    inc = [n for n in ast.walk(add) if isinstance(n, ast.Call) and ast.unparse(n) == 'self._incrementCurrentId(fd)']
+    wr = [n for n in ast.walk(add) if isinstance(n, ast.Call) and ast.unparse(n.func) == 'fd.write']
+    need(len(inc) == 1 and len(wr) == 1 and ast.unparse(wr[0]) == 'fd.write(line)',
+         'FlatfileMapping.add: expected one self._incrementCurrentId(fd) and one fd.write(line)')
+    need(len([n for n in ast.walk(add) if isinstance(n, ast.Call) and ast.unparse(n.func) in ('open', 'fd.seek', 'fd.close')]) == 3,
+         'FlatfileMapping.add: expected open / fd.seek / fd.close exactly once each')
+    fin = [x for tr in ast.walk(add) if isinstance(tr, ast.Try) for st in tr.finalbody for x in ast.walk(st)]
+    incr = find_def(t, '_incrementCurrentId', 'FlatfileMapping')
+    cc = [ast.unparse(n.func) for n in ast.walk(incr) if isinstance(n, ast.Call)]
+    need(cc.count('fd.seek') == 1 and cc.count('fd.write') == 2,
+         'FlatfileMapping._incrementCurrentId: expected fd.seek(0) and two fd.write calls, found %r' % cc)
+    return inc[0].lineno < wr[0].lineno and inc[0] not in fin
